@@ -33,6 +33,8 @@ import (
 	"net/url"
 	"os"
 	"reflect"
+	"runtime"
+	"runtime/pprof"
 	"strconv"
 	"strings"
 	"sync"
@@ -147,14 +149,30 @@ type gwPool struct {
 	mu      sync.Mutex
 	scripts map[string]*gwScript
 	seen    map[string][]gwSeen
+	// one gateway (one REAL handler chain around one manager) for the whole run: every chain starts three meter goroutines
+	// (throughput and rate monitors) that nothing can stop, so a chain per case would leak them; a case registers its
+	// clusters with the manager and removes them all at its end
+	gw      *e2e.Gateway
+	active  int64 // handler goroutines inside the chain
+	oracles *gwOracles
 }
 
 func newGwPool() *gwPool {
-	p := &gwPool{scripts: map[string]*gwScript{}, seen: map[string][]gwSeen{}}
+	p := &gwPool{scripts: map[string]*gwScript{}, seen: map[string][]gwSeen{}, oracles: &gwOracles{byName: map[string]GOracle{}}}
 	for i := 0; i < gwPoolSize; i++ {
 		slot := i
 		p.ups = append(p.ups, e2e.NewUpstream(func(s *e2e.Seen) e2e.Reply { return p.handle(slot, s) }))
 	}
+	p.gw = e2e.New(e2e.Config{
+		Chain: func(m clusters.Manager) e2e.ChainFunc {
+			inner := gatewayapp.VerifBuildProxyHandlerChain(m, false)
+			return func(api http.Handler, c *genericapiserver.Config) http.Handler {
+				return countingHandler{h: inner(api, c), n: &p.active}
+			}
+		},
+		Authenticator: p.oracles,
+		Authorizer:    p.oracles,
+	})
 	return p
 }
 
@@ -164,8 +182,10 @@ func (p *gwPool) handle(slot int, s *e2e.Seen) e2e.Reply {
 	sc := p.scripts[id]
 	p.seen[id] = append(p.seen[id], gwSeen{slot, s})
 	p.mu.Unlock()
-	rep := e2e.Reply{Status: 200, Header: [][2]string{{"Content-Type", "application/json"}, {"X-Upstream", fmt.Sprintf("u%d", slot)}},
-		Body: []byte(fmt.Sprintf("{\"upstream\":\"u%d\"}\n", slot))}
+	// Connection: close — every case builds new endpoint objects with transports of their own; their idle connections would
+	// pile up (two descriptors each) until the idle timeout
+	rep := e2e.Reply{Status: 200, Header: [][2]string{{"Content-Type", "application/json"}, {"X-Upstream", fmt.Sprintf("u%d", slot)}, {"Connection", "close"}},
+		Body: []byte(fmt.Sprintf("{\"upstream\":\"u%d\"}\n", slot)), CloseAfter: true}
 	if sc != nil {
 		if sc.got != nil {
 			select {
@@ -201,6 +221,7 @@ func (p *gwPool) bytesRead() (n int64) {
 }
 
 func (p *gwPool) close() {
+	p.gw.Close()
 	for _, u := range p.ups {
 		u.Close()
 	}
@@ -357,11 +378,12 @@ func (c countingHandler) ServeHTTP(w http.ResponseWriter, r *http.Request) {
 type gwReal struct {
 	pool    *gwPool
 	gw      *e2e.Gateway
-	active  int64
 	clk     *gwClock
 	health  *gwHealth
 	oracles *gwOracles
 	infos   []*clusters.ClusterInfo // per case cluster (nil when refused)
+	stopped []*clusters.ClusterInfo // per case cluster: every ClusterInfo that was created (refused ones included)
+	cs      GCase
 	install []string
 	created []int // case cluster index of every created cluster, in pointer order
 }
@@ -443,18 +465,10 @@ func (x *gwReal) object(c GCluster) *proxyv1alpha1.UpstreamCluster {
 }
 
 func newGwReal(pool *gwPool, cs GCase) (*gwReal, error) {
-	x := &gwReal{pool: pool, clk: &gwClock{ns: gwBase.UnixNano()}, health: &gwHealth{m: map[string]bool{}},
-		oracles: &gwOracles{byName: map[string]GOracle{"": cs.Local}}}
-	x.gw = e2e.New(e2e.Config{
-		Chain: func(m clusters.Manager) e2e.ChainFunc {
-			inner := gatewayapp.VerifBuildProxyHandlerChain(m, false)
-			return func(api http.Handler, c *genericapiserver.Config) http.Handler {
-				return countingHandler{h: inner(api, c), n: &x.active}
-			}
-		},
-		Authenticator: x.oracles,
-		Authorizer:    x.oracles,
-	})
+	x := &gwReal{pool: pool, cs: cs, gw: pool.gw, oracles: pool.oracles, clk: &gwClock{ns: gwBase.UnixNano()}, health: &gwHealth{m: map[string]bool{}}}
+	x.oracles.mu.Lock()
+	x.oracles.byName = map[string]GOracle{"": cs.Local}
+	x.oracles.mu.Unlock()
 	// the upstream controller's own registration code on the gateway's manager (exported methods; the zero controller
 	// around the manager is enough for them)
 	ctrl := &controllers.UpstreamClusterController{Manager: x.gw.Manager}
@@ -476,6 +490,7 @@ func newGwReal(pool *gwPool, cs GCase) (*gwReal, error) {
 			x.close()
 			return nil, fmt.Errorf("CreateClusterInfo(%s): %v", c.Name, err)
 		}
+		x.stopped = append(x.stopped, info)
 		if err := ctrl.AddOrUpdateForServerNames(nil, info); err != nil {
 			info.Stop()
 			ctrl.DeleteForServerNames(lname)
@@ -508,11 +523,39 @@ func newGwReal(pool *gwPool, cs GCase) (*gwReal, error) {
 }
 
 func (x *gwReal) close() {
-	x.gw.Close()
-	for _, i := range x.infos {
-		if i != nil {
-			i.Stop()
-		}
+	for ci, i := range x.stopped {
+		x.stopCluster(i, x.cs.Clusters[ci])
+	}
+	x.gw.Manager.DeleteAll()
+}
+
+// stopCluster stops a ClusterInfo and the meter goroutines of its flow-control schemas. ClusterInfo.Stop() only cancels the
+// context: the two ticker goroutines of every schema's util.Meter run until Meter.Stop() (the product leaks them when a
+// cluster is deleted; with thousands of cases per run the harness must not). The meter is reached through the
+// metering wrapper GetFlowSchema hands out; only its exported Stop() is called.
+func (x *gwReal) stopCluster(info *clusters.ClusterInfo, c GCluster) {
+	if info == nil {
+		return
+	}
+	for _, s := range c.Schemas {
+		stopMeter(info.GetFlowSchema(s.Name))
+	}
+	info.Stop()
+}
+
+func stopMeter(fc interface{}) {
+	defer func() { _ = recover() }() // a schema listed twice shares one meter: the second close panics
+	v := reflect.ValueOf(fc)
+	if v.Kind() != reflect.Ptr || v.Elem().Kind() != reflect.Struct {
+		return
+	}
+	f := v.Elem().FieldByName("meter")
+	if !f.IsValid() {
+		return
+	}
+	m := reflect.NewAt(f.Type(), unsafe.Pointer(f.UnsafeAddr())).Elem()
+	if stop := m.MethodByName("Stop"); stop.IsValid() {
+		stop.Call(nil)
 	}
 }
 
@@ -520,7 +563,7 @@ func (x *gwReal) close() {
 func (x *gwReal) quiesce(held int) bool {
 	deadline := time.Now().Add(10 * time.Second)
 	for time.Now().Before(deadline) {
-		if atomic.LoadInt64(&x.active) == int64(held) {
+		if atomic.LoadInt64(&x.pool.active) == int64(held) {
 			return true
 		}
 		time.Sleep(50 * time.Microsecond)
@@ -1442,6 +1485,10 @@ func runGatewayStream(c *rig.Ctx, pool *gwPool) {
 			continue
 		}
 		gwRecord(c, cs, v)
+	}
+	c.SetExtra("gateway_stream_goroutines_at_end", runtime.NumGoroutine())
+	if os.Getenv("C04_GW_DEBUG") != "" {
+		_ = pprof.Lookup("goroutine").WriteTo(os.Stderr, 1)
 	}
 }
 
